@@ -465,7 +465,9 @@ def judge_client(case, trace):
     toks = trace.split()
     if not toks or toks[0] != "K":
         return False, "no trace: " + trace[:100], {}
-    handler = {}          # (c, tok) -> list of (obs, state, res) since the last server-side add
+    handler = {}          # (c, tok, epoch) -> list of (obs, state, res) heard by the client
+    epoch = {}            # (c, tok) -> number of times the server added this observer so far
+    sent = {}             # (c, tok) -> list of (obs, body hex, epoch) of what the server sent
     deleted = set()       # (c, tok) currently deleted at the server (after Z, before A)
     nH = nX = 0
     i = 1
@@ -475,12 +477,14 @@ def judge_client(case, trace):
         if tk[0] == "A" and ":" in tk:
             c, tok = tk[1:].split(":")
             deleted.discard((c, tok))
-            handler[(c, tok)] = []
+            epoch[(c, tok)] = epoch.get((c, tok), 0) + 1
         elif tk[0] == "Z" and ":" in tk:
             c, tok = tk[1:].split(":")
             deleted.add((c, tok))
         elif tk[0] == "X":
             f = tk[1:].split(":")
+            if len(f) >= 9:
+                sent.setdefault((f[1], f[6]), []).append((f[7], f[8], epoch.get((f[1], f[6]), 0)))
             if len(f) >= 9 and f[2] == "n":
                 nX += 1
                 # (an error-class response is sent right after the observer was deleted: allowed)
@@ -494,7 +498,16 @@ def judge_client(case, trace):
                 m = re.match(r"(\d+)\.(\d+)$", body)
                 if not m:
                     return False, "client got an unreadable body " + tk, {}
-                handler.setdefault((f[0], f[1]), []).append((int(f[2]), int(m.group(2)), int(m.group(1))))
+                # the registration (epoch) this message was sent in: a delayed message of an earlier
+                # registration with the same token must not be compared with the current one
+                ep = None
+                for (o1, b1, e1) in sent.get((f[0], f[1]), []):
+                    if o1 == f[2] and b1 == f[4]:
+                        ep = e1
+                        break
+                if ep is None:
+                    return False, "client heard %s which the server never sent" % tk, {}
+                handler.setdefault((f[0], f[1], ep), []).append((int(f[2]), int(m.group(2)), int(m.group(1))))
     # Observe order = order of the application states, for every pair of one registration
     for key, seq in handler.items():
         for a in range(len(seq)):
@@ -530,7 +543,7 @@ def judge_client(case, trace):
         if st[1] in "cf":
             return False, ("observation (client %s token %s) was %s by the client but is still registered "
                            "after the loss-free closing phase" % (c, tok, "cancelled" if st[1] == "c" else "reset")), {}
-        seq = handler.get((c, tok), [])
+        seq = handler.get((c, tok, epoch.get((c, tok), 0)), [])
         if not seq:
             return False, "registered observer (client %s token %s) never heard anything" % (c, tok), {}
         newest = seq[0]
